@@ -723,7 +723,7 @@ int scpiLex_ArbitraryBlockProgramData(lex_state_t * state, scpi_token_t * token)
     token->ptr = state->pos;
 
     if (skipChr(state, '#')) {
-        if (!iseos(state) && isNonzeroDigit(state->pos[0])) {
+        if (!iseos(state) && isNonzeroDigit((uint8_t)(state->pos[0]))) {
             /* Get number of digits */
             i = state->pos[0] - '0';
             state->pos++;
